@@ -280,8 +280,18 @@ class SSHKnownHosts:
             x509_subjects, revoked_subjects = self._match(host, addr, port)
 
         if port and not (host_keys or ca_keys or x509_certs or x509_subjects):
+            # Keep any entries revoked specifically for this port
+
+            port_revoked_keys = revoked_keys
+            port_revoked_certs = revoked_certs
+            port_revoked_subjects = revoked_subjects
+
             host_keys, ca_keys, revoked_keys, x509_certs, revoked_certs, \
                 x509_subjects, revoked_subjects = self._match(host, addr)
+
+            revoked_keys = port_revoked_keys + revoked_keys
+            revoked_certs = port_revoked_certs + revoked_certs
+            revoked_subjects = port_revoked_subjects + revoked_subjects
 
         return (host_keys, ca_keys, revoked_keys, x509_certs, revoked_certs,
                 x509_subjects, revoked_subjects)
